@@ -29,6 +29,7 @@ const (
 	bPanicBeforeGate
 	bPanicAfterGate
 	bPanicNow
+	bNil // a nil func value is submitted: nothing can run, but the slot must come back and Wait must not hang
 )
 
 type task struct {
@@ -85,23 +86,27 @@ func samePanic(want, got any) bool {
 }
 
 type limCase struct {
-	Limit   int
-	Tasks   []task
-	Order   []int // release order of the gates (indices into Tasks)
-	Handler bool
-	Procs   int
-	Timed   bool // after the first Wait() the idle Limiter is also waited on with a timeout (returns at once)
-	Twin    bool // a second Limiter with the same limit argument is kept saturated for the whole scenario
-	Expire  bool // (not under the race detector) a timed Wait expires while functions run; after they finished the Limiter is used again
+	Limit    int
+	Tasks    []task
+	Order    []int // release order of the gates (indices into Tasks)
+	Handler  bool
+	Procs    int
+	Timed    bool // after the first Wait() the idle Limiter is also waited on with a timeout (returns at once)
+	Twin     bool // a second Limiter with the same limit argument is kept saturated for the whole scenario
+	WaitForm int  // how "Wait() without timeout" is spelled: 0 l.Wait(), 1 l.Wait(empty...) with an empty non-nil slice, 2 with a nil slice
+	Expire   bool // (not under the race detector) a timed Wait expires while functions run; after they finished the Limiter is used again
 }
 
 func gen(t *rapid.T) (c limCase) {
 	c = limCase{Limit: rapid.OneOf(rapid.IntRange(1, 6), rapid.IntRange(-2, 6)).Draw(t, "limit"), Handler: rapid.IntRange(0, 3).Draw(t, "handler") != 0,
 		Procs: rapid.SampledFrom([]int{1, 2, 4, 16}).Draw(t, "procs"), Timed: rapid.Bool().Draw(t, "timed"), Twin: rapid.IntRange(0, 3).Draw(t, "twin") == 0}
-	defer func() { c.Expire = rapid.IntRange(0, 2).Draw(t, "expire") == 0 }()
+	defer func() {
+		c.Expire = rapid.IntRange(0, 2).Draw(t, "expire") == 0
+		c.WaitForm = rapid.SampledFrom([]int{0, 0, 1, 2}).Draw(t, "waitForm")
+	}()
 	n := rapid.IntRange(1, 24).Draw(t, "ntasks")
 	for i := 0; i < n; i++ {
-		c.Tasks = append(c.Tasks, task{B: rapid.SampledFrom([]int{bReturn, bYield, bGate, bGate, bGate, bPanicBeforeGate, bPanicAfterGate, bPanicNow}).Draw(t, "b"), K: rapid.IntRange(0, 5).Draw(t, "k")})
+		c.Tasks = append(c.Tasks, task{B: rapid.SampledFrom([]int{bReturn, bYield, bGate, bGate, bGate, bPanicBeforeGate, bPanicAfterGate, bPanicNow, bGate, bYield, bReturn, bPanicNow, bNil}).Draw(t, "b"), K: rapid.IntRange(0, 5).Draw(t, "k")})
 	}
 	var gates []int
 	for i, tk := range c.Tasks {
@@ -310,6 +315,77 @@ func (w *world) waitQuiescent(total int) (submitterBlocked bool, err error) {
 	}
 }
 
+// waitUntimed calls Wait without a timeout in one of its spellings.
+func waitUntimed(l *goz.Limiter, form int) {
+	switch form {
+	case 1:
+		l.Wait([]time.Duration{}...)
+	case 2:
+		var none []time.Duration
+		l.Wait(none...)
+	default:
+		l.Wait()
+	}
+}
+
+// waitStuck reports (state-based, from a goroutine dump) that a caller of Wait is parked while no other
+// goroutine of the Limiter exists any more: every worker has exited, so nobody is left to wake it.
+// A waiter that has been woken is runnable, not parked, so the state is final.
+func waitStuck() (bool, string) {
+	buf := make([]byte, 1<<20)
+	n := runtime.Stack(buf, true)
+	if n == len(buf) {
+		return false, ""
+	}
+	waiters, others := 0, 0
+	desc := ""
+	for _, g := range strings.Split(string(buf[:n]), "\n\n") {
+		if !strings.Contains(g, "golib/goz.") {
+			continue
+		}
+		head := g[:strings.IndexByte(g+"\n", '\n')]
+		switch {
+		case strings.Contains(g, "goz.(*Limiter).Wait") && !strings.Contains(g, "goz.(*Limiter).Wait.func") &&
+			(strings.Contains(head, "[semacquire") || strings.Contains(head, "[sync.WaitGroup.Wait")):
+			waiters++
+			desc += head + "; "
+		case strings.Contains(head, "[chan receive") && strings.Contains(g, "c19.run.func"):
+			// a function of the twin Limiter parked on its hold channel: another Limiter
+		default:
+			others++
+		}
+	}
+	return waiters > 0 && others == 0, desc
+}
+
+// awaitWait waits for an untimed Wait to return. A Wait that is provably stuck is a violation; a bound hit
+// without such a state is no verdict.
+func awaitWait(done <-chan struct{}, what string) error {
+	deadline := time.Now().Add(20 * time.Second)
+	for stuckSeen := 0; ; {
+		select {
+		case <-done:
+			return nil
+		case <-time.After(2 * time.Millisecond):
+		}
+		if st, desc := waitStuck(); st {
+			if stuckSeen++; stuckSeen >= 3 {
+				select {
+				case <-done:
+					return nil
+				default:
+				}
+				return fmt.Errorf("%s never returns: its goroutine is parked in the WaitGroup while no other goroutine of the Limiter exists any more (every submitted function has finished): %s", what, desc)
+			}
+		} else {
+			stuckSeen = 0
+		}
+		if time.Now().After(deadline) {
+			return inconclusive{what + " did not return within 20s"}
+		}
+	}
+}
+
 func run(c limCase, r *pb.Rec) error {
 	if len(c.Tasks) == 0 || len(c.Tasks) > 64 || c.Limit > 32 {
 		return nil
@@ -353,9 +429,15 @@ func run(c limCase, r *pb.Rec) error {
 	var bodies []func()
 	var wantPanics []any
 	runtimeFaults := 0
+	nilCount := 0
 	for i, tk := range c.Tasks {
 		w.gates[i] = make(chan struct{})
 		w.ptrs[i] = &tagErr{i}
+		if tk.B == bNil {
+			bodies = append(bodies, nil)
+			nilCount++
+			continue
+		}
 		bodies = append(bodies, w.body(i, tk))
 		if tk.B >= bPanicBeforeGate {
 			v := raised(i, tk.K, w.ptrs[i])
@@ -365,6 +447,7 @@ func run(c limCase, r *pb.Rec) error {
 			}
 		}
 	}
+	expected := len(c.Tasks) - nilCount // functions that can run
 	// phase 1+2: submit everything; release the gates one at a time, each time from a quiescent state
 	go submitLoop(l, w, bodies)
 	order := append([]int(nil), c.Order...)
@@ -381,11 +464,11 @@ func run(c limCase, r *pb.Rec) error {
 		if !waitStarted && atomic.LoadInt32(&w.submitterDone) == 1 {
 			// every Go call has returned: from now on Wait() must block until all functions have finished
 			waitStarted = true
-			go func() { l.Wait(); atomic.StoreInt32(&waitReturned, 1); close(waitDone) }()
+			go func() { waitUntimed(l, c.WaitForm); atomic.StoreInt32(&waitReturned, 1); close(waitDone) }()
 		}
 		if atomic.LoadInt32(&waitReturned) == 1 {
-			if f := atomic.LoadInt32(&w.finished); int(f) != len(c.Tasks) {
-				return fmt.Errorf("Wait() returned with %d of %d functions finished", f, len(c.Tasks))
+			if f := atomic.LoadInt32(&w.finished); int(f) != expected {
+				return fmt.Errorf("Wait() returned with %d of %d functions finished", f, expected)
 			}
 		}
 		if blockedSub {
@@ -414,17 +497,18 @@ func run(c limCase, r *pb.Rec) error {
 		close(w.gates[next])
 	}
 	if !waitStarted {
-		go func() { l.Wait(); atomic.StoreInt32(&waitReturned, 1); close(waitDone) }()
+		go func() { waitUntimed(l, c.WaitForm); atomic.StoreInt32(&waitReturned, 1); close(waitDone) }()
 	}
-	select {
-	case <-waitDone:
-	case <-time.After(20 * time.Second):
-		return inconclusive{"Wait() did not return within 20s"}
+	if err := awaitWait(waitDone, "Wait()"); err != nil {
+		return err
 	}
-	if f := atomic.LoadInt32(&w.finished); int(f) != len(c.Tasks) {
-		return fmt.Errorf("Wait() returned with %d of %d functions finished", f, len(c.Tasks))
+	if f := atomic.LoadInt32(&w.finished); int(f) != expected {
+		return fmt.Errorf("Wait() returned with %d of %d functions finished", f, expected)
 	}
 	for i := range c.Tasks {
+		if c.Tasks[i].B == bNil {
+			continue
+		}
 		if e := atomic.LoadInt32(&w.execs[i]); e != 1 {
 			return fmt.Errorf("task %d executed %d times", i, e)
 		}
@@ -450,8 +534,16 @@ func run(c limCase, r *pb.Rec) error {
 				return fmt.Errorf("a function panicked with %T(%v) but the handler did not receive that value; it received %d value(s): %s", want, want, len(got), describe(got))
 			}
 		}
-		if len(got) != len(wantPanics) {
-			return fmt.Errorf("panic handler was called %d times for %d panics: %s", len(got), len(wantPanics), describe(got))
+		// a nil func may or may not be reported to the handler (calling it faults inside the Limiter's worker);
+		// if it is, the value is the runtime's error
+		spare := 0
+		for j, g := range got {
+			if !used[j] {
+				if _, ok := g.(runtime.Error); !ok || spare >= nilCount {
+					return fmt.Errorf("panic handler was called %d times for %d panics (and %d nil functions): unexpected value %T(%v); all values: %s", len(got), len(wantPanics), nilCount, g, g, describe(got))
+				}
+				spare++
+			}
 		}
 		r.ClassIf(runtimeFaults > 0, "handler checked against a fault raised by the runtime")
 	}
@@ -514,8 +606,8 @@ func run(c limCase, r *pb.Rec) error {
 			}
 			runtime.Gosched()
 		}
-		if f := atomic.LoadInt32(&w.finished); int(f) != len(c.Tasks)+extra {
-			return fmt.Errorf("HARNESS: %d of %d functions finished before phase 3", f, len(c.Tasks)+extra)
+		if f := atomic.LoadInt32(&w.finished); int(f) != expected+extra {
+			return fmt.Errorf("HARNESS: %d of %d functions finished before phase 3", f, expected+extra)
 		}
 		r.Class("timed Wait expired while functions ran, Limiter reused after going idle")
 	}
@@ -538,7 +630,7 @@ func run(c limCase, r *pb.Rec) error {
 	// the Limiter is being reused: Wait() must block while the n functions are parked inside
 	waitDone2 := make(chan struct{})
 	var waitReturned2 int32
-	go func() { l.Wait(); atomic.StoreInt32(&waitReturned2, 1); close(waitDone2) }()
+	go func() { waitUntimed(l, c.WaitForm); atomic.StoreInt32(&waitReturned2, 1); close(waitDone2) }()
 	for deadline := time.Now().Add(20 * time.Second); ; {
 		if atomic.LoadInt32(&waitReturned2) == 1 {
 			return fmt.Errorf("Wait() on a reused Limiter returned while %d submitted functions were still running", atomic.LoadInt32(&w.blocked))
@@ -555,16 +647,14 @@ func run(c limCase, r *pb.Rec) error {
 		atomic.StoreInt32(&w.opened[base+i], 1)
 		close(w.gates[base+i])
 	}
-	select {
-	case <-waitDone2:
-	case <-time.After(20 * time.Second):
-		return inconclusive{"second Wait() did not return within 20s"}
+	if err := awaitWait(waitDone2, "the second Wait() (Limiter reused)"); err != nil {
+		return err
 	}
 	if v := w.violation.Load(); v != nil {
 		return fmt.Errorf("%s", v)
 	}
-	if f := atomic.LoadInt32(&w.finished); int(f) != base+n {
-		return fmt.Errorf("second Wait() returned with %d of %d functions finished", f, base+n)
+	if f := atomic.LoadInt32(&w.finished); int(f) != expected+extra+n {
+		return fmt.Errorf("second Wait() returned with %d of %d functions finished", f, expected+extra+n)
 	}
 	if int(atomic.LoadInt32(&w.maxInside)) > n {
 		return fmt.Errorf("max concurrency %d > limit %d", w.maxInside, n)
@@ -572,6 +662,8 @@ func run(c limCase, r *pb.Rec) error {
 	r.ClassIf(saturated, "saturated: submitter blocked with all slots held")
 	r.ClassIf(len(wantPanics) > 0, "panics raised")
 	r.ClassIf(c.Limit < 1, "limit below 1 (default 3)")
+	r.ClassIf(nilCount > 0, "nil func submitted")
+	r.ClassIf(c.WaitForm == 1, "Wait called with an empty non-nil duration slice")
 	r.ClassIf(!c.Handler && len(wantPanics) > 0, "panic without handler")
 	r.ClassIf(int(w.maxInside) == n, "limit reached")
 	r.NonTrivialIf(len(wantPanics) > 0 && saturated)
@@ -589,7 +681,7 @@ func describe(vs []any) string {
 func TestLimiter(t *testing.T) {
 	st := pb.Stats("limiter")
 	st.SetRule("scenarios: limit -2..6 (below 1 => 3), 1..24 functions that return / yield / park on a harness gate / panic (before or after the gate), drawn gate release order, with or without panic handler, GOMAXPROCS 1..16; the harness releases one gate at a time, each time from a quiescent state, and after Wait() submits n more parked functions that must all run concurrently; monitors: concurrency never above n, exactly-once execution, Wait() only after all finished, handler receives every panic value itself (strings, pointers by identity, runtime faults by type and message), an expired timed Wait followed by idle and reuse (plain mode), no slot leaked (state-based: submitter parked in the Limiter's channel send while fewer than n functions hold slots); schedules inside the Limiter are sampled, not owned; non-trivial = a panic followed by a saturation phase")
-	st.Require("second Limiter saturated alongside", "timed Wait on the idle Limiter", "handler checked against a fault raised by the runtime", "timed Wait expired while functions ran, Limiter reused after going idle", "saturated: submitter blocked with all slots held", "panics raised", "limit below 1 (default 3)", "panic without handler", "limit reached")
+	st.Require("second Limiter saturated alongside", "timed Wait on the idle Limiter", "handler checked against a fault raised by the runtime", "nil func submitted", "Wait called with an empty non-nil duration slice", "timed Wait expired while functions ran, Limiter reused after going idle", "saturated: submitter blocked with all slots held", "panics raised", "limit below 1 (default 3)", "panic without handler", "limit reached")
 	// the default panic handler prints to stdout: keep the test output clean (swapped once, not per case)
 	if dn, err := os.OpenFile(os.DevNull, os.O_WRONLY, 0); err == nil {
 		old := os.Stdout
